@@ -21,7 +21,7 @@ import (
 func init() {
 	ev.Register(&ev.Spec{
 		ID: "C02", Level: "exploration",
-		Rule:    "lock-step raw peer feeding a real server sequences that mix good frames with every class of bad frame: unknown type bytes, bodies truncated at every offset (size field adjusted: well-delimited but short), inflated list/string/payload counts, bit flips, R-types sent to the server, PRNG bodies, size fields 0/6/7/msize-1/msize/msize+1/4MiB/4MiB+1/2^31/2^32-1 before and after negotiation; after each frame an alignment probe must be answered correctly. The reference codec referees each frame (valid / well-delimited invalid / bad size). Allocation is measured (TotalAlloc delta) around bad-size and inflated-count frames. Client as receiver: the same byte classes as replies to a pending call; and a bad-size matrix (WithMessageSize option and announced msize from 64 KiB to 2^32-1, size fields 0/6/limit+1/4MiB+1/5MiB/announced/2^31/2^32-1 where limit = min(option, announced, 4 MiB)): the pending call fails, no body byte is taken, nothing of that size is allocated. Non-trivial: the frame reaches decode or a rejection branch other than 'header short'; distinct by (type byte, class, outcome).",
+		Rule:    "lock-step raw peer feeding a real server sequences that mix good frames with every class of bad frame: unknown type bytes, bodies truncated at every offset (size field adjusted: well-delimited but short), inflated list/string/payload counts, bit flips, R-types sent to the server, PRNG bodies, size fields 0/6/7/msize-1/msize/msize+1/4MiB/4MiB+1/2^31/2^32-1 before and after negotiation; after each frame an alignment probe must be answered correctly. The reference codec referees each frame (valid / well-delimited invalid / bad size). Allocation is measured (TotalAlloc delta) around bad-size and inflated-count frames. Client as receiver: the same byte classes as replies to a pending call; and a bad-size matrix (WithMessageSize option and announced msize from 64 KiB to 2^32-1, size fields 0/6/limit+1/4MiB+1/5MiB/announced/2^31/2^32-1 where limit = min(option, announced, 4 MiB)): the pending call fails, no body byte is taken, nothing of that size is allocated; then one more call is made: it fails too and takes none of the refused frame's body (fed byte by byte). Server bad-size configurations include a refused Tversion with a larger / smaller msize after the negotiation (it changes nothing). Non-trivial: the frame reaches decode or a rejection branch other than 'header short'; distinct by (type byte, class, outcome).",
 		Assume:  []string{"reference codec decides validity", "net.Pipe write counts are the bytes the server consumed", "TotalAlloc delta in a process that runs one scenario at a time is a proxy for buffering (slack 16 MiB + msize: a 2-byte count may legitimately demand a 65535-element list, ~5.5 MB with slice growth)"},
 		Shards:  shards(8, 16),
 		Timeout: timeout(6*time.Minute, 45*time.Minute),
